@@ -624,8 +624,176 @@ class _MaskSelect(ast.NodeTransformer):
         return n
 
 
+# ---------------------------------------------------------------------------------------------------------------- N9
+def dissolve_namedtuples(tree):
+    """N9 - *a private record*.  A `typing.NamedTuple` class of the module is a tuple with named positions: `Cls(a, b)` /
+    `Cls(x=a, y=b)` is written as the tuple `(a, b)` in field order, and `v.x` on a local `v` that is assigned once - from
+    such a constructor call or from a call of a module function all of whose returns are such constructor calls - is
+    written `v[0]`.  (Unpacking `p, q = v` already reads the same.)  Returns the number of rewrites."""
+    classes = {}
+    for node in tree.body:
+        if isinstance(node, ast.ClassDef) and any((isinstance(b, ast.Name) and b.id == 'NamedTuple') or
+                                                  (isinstance(b, ast.Attribute) and b.attr == 'NamedTuple') for b in node.bases):
+            fields = [st.target.id for st in node.body if isinstance(st, ast.AnnAssign) and isinstance(st.target, ast.Name)]
+            if fields and not any(isinstance(st, (ast.FunctionDef, ast.AsyncFunctionDef)) for st in node.body):
+                classes[node.name] = fields
+    if not classes:
+        return 0
+    count = 0
+
+    def as_tuple(call):
+        f = call.func
+        nm = f.id if isinstance(f, ast.Name) else None
+        if nm in classes and len(call.args) == 1 and isinstance(call.args[0], ast.Starred) and not call.keywords:
+            return nm, call.args[0].value          # Cls(*t): the record is the tuple t itself
+        if nm not in classes or any(isinstance(a, ast.Starred) for a in call.args) or any(k.arg is None for k in call.keywords):
+            return None
+        fields = classes[nm]
+        vals = dict(zip(fields, call.args))
+        for k in call.keywords:
+            if k.arg not in fields or k.arg in vals:
+                return None
+            vals[k.arg] = k.value
+        if set(vals) != set(fields):
+            return None
+        return nm, ast.copy_location(ast.Tuple(elts=[vals[x] for x in fields], ctx=ast.Load()), call)
+    funcs = [n_ for n_ in ast.walk(tree) if isinstance(n_, (ast.FunctionDef, ast.AsyncFunctionDef))]
+    # which functions return a record (every return is a constructor call of one class)
+    returns_rec = {}
+    for fn in funcs:
+        rets = [x for x in _own(fn) if isinstance(x, ast.Return)]
+        kinds = set()
+        for r in rets:
+            t = as_tuple(r.value) if isinstance(r.value, ast.Call) else None
+            kinds.add(t[0] if t else None)
+        if rets and len(kinds) == 1 and None not in kinds:
+            returns_rec[fn.name] = next(iter(kinds))
+    # locals that hold a record
+    for fn in funcs:
+        stores = {}
+        for x in _own(fn):
+            if isinstance(x, ast.Name) and isinstance(x.ctx, ast.Store):
+                stores[x.id] = stores.get(x.id, 0) + 1
+        recs = {}
+        for x in _own(fn):
+            if isinstance(x, ast.Assign) and len(x.targets) == 1 and isinstance(x.targets[0], ast.Name) and stores.get(x.targets[0].id) == 1 and \
+                    isinstance(x.value, ast.Call) and isinstance(x.value.func, ast.Name):
+                cn = x.value.func.id
+                if cn in classes and as_tuple(x.value) is not None:
+                    recs[x.targets[0].id] = cn
+                elif cn in returns_rec:
+                    recs[x.targets[0].id] = returns_rec[cn]
+        if recs:
+            class _F(ast.NodeTransformer):
+                def visit_Attribute(self, n_):
+                    nonlocal count
+                    self.generic_visit(n_)
+                    if isinstance(n_.value, ast.Name) and n_.value.id in recs and isinstance(n_.ctx, ast.Load) and n_.attr in classes[recs[n_.value.id]]:
+                        count += 1
+                        return ast.copy_location(ast.Subscript(value=n_.value, slice=ast.Constant(value=classes[recs[n_.value.id]].index(n_.attr)),
+                                                               ctx=ast.Load()), n_)
+                    return n_
+            for st in fn.body:
+                _F().visit(st)
+    # the constructor calls themselves
+    class _C(ast.NodeTransformer):
+        def visit_Call(self, n_):
+            nonlocal count
+            self.generic_visit(n_)
+            t = as_tuple(n_)
+            if t is not None:
+                count += 1
+                return t[1]
+            return n_
+    for fn in funcs:
+        for st in fn.body:
+            _C().visit(st)
+    if count:
+        ast.fix_missing_locations(tree)
+    return count
+
+
+# ---------------------------------------------------------------------------------------------------------------- N10
+def inline_compiled_regex(tree):
+    """N10 - `_RE = re.compile(PATTERN)` at module level (bound once, no flags) and `_RE.split(s)` is `re.split(PATTERN, s)`"""
+    pats, stores = {}, {}
+    for st in tree.body:
+        if isinstance(st, ast.Assign):
+            for t in st.targets:
+                if isinstance(t, ast.Name):
+                    stores[t.id] = stores.get(t.id, 0) + 1
+    for st in tree.body:
+        if isinstance(st, ast.Assign) and len(st.targets) == 1 and isinstance(st.targets[0], ast.Name) and stores.get(st.targets[0].id) == 1 and \
+                isinstance(st.value, ast.Call) and isinstance(st.value.func, ast.Attribute) and st.value.func.attr == 'compile' and \
+                isinstance(st.value.func.value, ast.Name) and st.value.func.value.id == 're' and len(st.value.args) == 1 and not st.value.keywords and \
+                isinstance(st.value.args[0], ast.Constant) and isinstance(st.value.args[0].value, str):
+            pats[st.targets[0].id] = st.value.args[0]
+    if not pats:
+        return 0
+    count = 0
+
+    class _R(ast.NodeTransformer):
+        def visit_Call(self, n_):
+            nonlocal count
+            self.generic_visit(n_)
+            f = n_.func
+            if isinstance(f, ast.Attribute) and isinstance(f.value, ast.Name) and f.value.id in pats and \
+                    f.attr in ('split', 'match', 'search', 'findall', 'fullmatch', 'sub', 'finditer'):
+                count += 1
+                return ast.copy_location(ast.Call(func=ast.Attribute(value=ast.Name(id='re', ctx=ast.Load()), attr=f.attr, ctx=ast.Load()),
+                                                  args=[copy.deepcopy(pats[f.value.id])] + list(n_.args), keywords=list(n_.keywords)), n_)
+            return n_
+    for st in tree.body:
+        if isinstance(st, (ast.FunctionDef, ast.AsyncFunctionDef, ast.ClassDef)):
+            _R().visit(st)
+    if count:
+        ast.fix_missing_locations(tree)
+    return count
+
+
+# ---------------------------------------------------------------------------------------------------------------- N11
+def positional_calls(tree):
+    """N11 - a call of a module-level function of the same module with leading parameters passed by keyword
+    (`_trim(excludes=v, data=d)`) is written positionally in the callee's parameter order (`_trim(d, v)`); keywords that do
+    not continue the positional prefix stay keywords.  (The inverse of the mechanical variant `keywordise`.)"""
+    sigs = {}
+    for st in tree.body:
+        if isinstance(st, (ast.FunctionDef, ast.AsyncFunctionDef)) and not st.args.vararg:
+            sigs[st.name] = [a.arg for a in st.args.posonlyargs + st.args.args]
+    count = 0
+
+    class _P(ast.NodeTransformer):
+        def visit_Call(self, n_):
+            nonlocal count
+            self.generic_visit(n_)
+            if isinstance(n_.func, ast.Name) and n_.func.id in sigs and n_.keywords and not any(isinstance(a, ast.Starred) for a in n_.args) and \
+                    not any(k.arg is None for k in n_.keywords):
+                params = sigs[n_.func.id]
+                kws = {k.arg: k for k in n_.keywords}
+                args = list(n_.args)
+                moved = 0
+                for p_ in params[len(args):]:
+                    if p_ in kws:
+                        args.append(kws.pop(p_).value)
+                        moved += 1
+                    else:
+                        break
+                if moved:
+                    n_.args = args
+                    n_.keywords = [k for k in n_.keywords if k.arg in kws]
+                    count += 1
+            return n_
+    for st in tree.body:
+        if isinstance(st, (ast.FunctionDef, ast.AsyncFunctionDef, ast.ClassDef)):
+            _P().visit(st)
+    return count
+
+
 def normalise_module(tree):
     n = 0
+    n += dissolve_namedtuples(tree)
+    n += positional_calls(tree)
+    n += inline_compiled_regex(tree)
     ms = _MaskSelect()
     ms.visit(tree)
     n += ms.count
